@@ -105,6 +105,7 @@ def tdefectsOfAtom : String → Option TDefects
   | "aswas" => some .asWas
   | "repaired" => some .repaired
   | "safefix" => some .safeFix
+  | "safefix2" => some .safeFix2
   | _ => none
 
 def expectOfAtom : String → Option Expect
@@ -126,7 +127,7 @@ def locToSexp (l : Loc) : List Sexp := [Sexp.nat l.line, Sexp.nat l.col]
 /-- `(c03-check <asis|aswas|repaired> <env> <strict> <expect> <node>)` -/
 def handleCheck : List Sexp → Sexp
   | [.atom "c03-check", .atom d, e, strict, .atom ex, n] =>
-    match defectsOfAtom (if d == "safefix" then "asis" else d), tdefectsOfAtom d, envOfSexp e, strict.asBool,
+    match defectsOfAtom (if d == "safefix" || d == "safefix2" then "asis" else d), tdefectsOfAtom d, envOfSexp e, strict.asBool,
         expectOfAtom ex, Node.ofSexp n with
     | some (dn, _), some dt, some e, some strict, some ex, some n =>
       match check (cfgOfEnv dn dt e strict ex) n with
@@ -146,7 +147,11 @@ def handleRef : List Sexp → Sexp
       let cfg := cfgOfEnv .asIs .repaired e true .none
       match synth cfg [] n with
       | some t => .list [.atom "well", Ty.optToSexp t, Sexp.bool (staticNode cfg [] n)]
-      | none => .atom "ill"
+      | none =>
+        -- which rule rejects it: the error the checker with the documented rule set reports
+        match check cfg n with
+        | .error _ c _ => .list [.atom "ill", .atom c.name]
+        | _ => .list [.atom "ill", .atom "panic"]
     | _, _ => bad
   | _ => bad
 
